@@ -1085,14 +1085,152 @@ func virtualReturns(fn *ssa.Function) []vReturn {
 // ---------------------------------------------------------------------------
 // misc
 
+// resultAt: result k of return r. When the function defers and names its results, `return a, b` stores the values in
+// the result variables, runs the deferred calls and returns loads of the variables; the value this return statement
+// gave is the last store before the load (same block, or up a chain of single predecessors).
+func resultAt(r *ssa.Return, k int) ssa.Value {
+	if k >= len(r.Results) {
+		return nil
+	}
+	v := r.Results[k]
+	u, ok := v.(*ssa.UnOp)
+	if !ok || u.Op != token.MUL {
+		return v
+	}
+	a, ok := u.X.(*ssa.Alloc)
+	if !ok {
+		return v
+	}
+	b := u.Block()
+	from := indexInBlock(u)
+	for hops := 0; b != nil && hops < 6; hops++ {
+		for i := from - 1; i >= 0; i-- {
+			if st, ok := b.Instrs[i].(*ssa.Store); ok && st.Addr == ssa.Value(a) {
+				return st.Val
+			}
+		}
+		if len(b.Preds) != 1 {
+			return v
+		}
+		b = b.Preds[0]
+		from = len(b.Instrs)
+	}
+	return v
+}
+
+// singleAssignment: v is a load of a local variable that is assigned exactly once (a variable that lives in memory
+// only because a closure captures it): the assigned value. Otherwise v.
+func singleAssignment(v ssa.Value) ssa.Value {
+	for depth := 0; depth < 3; depth++ {
+		u, ok := strip(v).(*ssa.UnOp)
+		if !ok || u.Op != token.MUL {
+			return v
+		}
+		a, ok := u.X.(*ssa.Alloc)
+		if !ok {
+			return v
+		}
+		var val ssa.Value
+		n := 0
+		escapes := false
+		for _, r := range referrers(a) {
+			switch x := r.(type) {
+			case *ssa.Store:
+				if x.Addr == ssa.Value(a) {
+					n++
+					val = x.Val
+				} else {
+					escapes = true
+				}
+			case *ssa.UnOp, *ssa.DebugRef:
+			case *ssa.MakeClosure:
+				// captured: the closure may assign it
+				if fn, ok := x.Fn.(*ssa.Function); ok {
+					for k, b := range x.Bindings {
+						if b == ssa.Value(a) && k < len(fn.FreeVars) {
+							for _, rr := range referrers(fn.FreeVars[k]) {
+								if st, ok := rr.(*ssa.Store); ok && st.Addr == ssa.Value(fn.FreeVars[k]) {
+									escapes = true
+								}
+							}
+						}
+					}
+				}
+			default:
+				escapes = true
+			}
+		}
+		if n != 1 || escapes || val == nil {
+			return v
+		}
+		v = val
+	}
+	return v
+}
+
+// returnsOf: the return instructions of fn. A function with defer statements has a synthetic "recover" block whose
+// return executes only after a deferred call recovered a panic; it is an exit of the function only when some
+// function of the module that fn can defer calls recover().
 func returnsOf(fn *ssa.Function) []*ssa.Return {
 	var out []*ssa.Return
 	eachInstr(fn, func(i ssa.Instruction) {
 		if r, ok := i.(*ssa.Return); ok {
+			if r.Block().Comment == "recover" && fn.Recover == r.Block() && !mayRecover(fn) {
+				return
+			}
 			out = append(out, r)
 		}
 	})
 	return out
+}
+
+var mayRecoverCache = map[*ssa.Function]bool{}
+
+// mayRecover: a deferred call of fn can call the builtin recover(): the deferred function is unknown, or it (or a
+// closure defined in it) contains a recover() call.
+func mayRecover(fn *ssa.Function) bool {
+	if v, ok := mayRecoverCache[fn]; ok {
+		return v
+	}
+	res := false
+	has := func(g *ssa.Function) bool {
+		found := false
+		for _, h := range withClosures(g) {
+			eachInstr(h, func(i ssa.Instruction) {
+				if call, ok := i.(*ssa.Call); ok && isBuiltinCall(call, "recover") {
+					found = true
+				}
+			})
+		}
+		return found
+	}
+	for _, b := range fn.Blocks {
+		for _, i := range b.Instrs {
+			d, ok := i.(*ssa.Defer)
+			if !ok {
+				continue
+			}
+			switch v := d.Call.Value.(type) {
+			case *ssa.MakeClosure:
+				if g, ok := v.Fn.(*ssa.Function); ok && has(g) {
+					res = true
+				}
+			case *ssa.Function:
+				if v.Blocks != nil && has(v) {
+					res = true
+				}
+			default:
+				if d.Call.IsInvoke() {
+					continue // a method of an interface value (Unlock, Close, Release...): library code that does not recover for us
+				}
+				if _, isBuiltin := v.(*ssa.Builtin); !isBuiltin {
+					res = true // a function value of unknown origin
+				}
+			}
+		}
+	}
+	mayRecoverCache[fn] = res
+	return res
 }
 
 // referrers returns the referrers of v (nil-safe).
